@@ -91,7 +91,7 @@ def main(ctx):
             jobs.append((cfg, mem0, lst, st, PATTERNS[rng.randrange(3)] if len(lst) > 1 else [0], None))
     lines = core.pmap(clientlib.run_client, jobs, chunksize=16)
     for ln in lines:
-        nt = len(ln["ops"]) >= 2 and any(r["svc"] == "write" or r["idx"] + r["n"] > 3 for r in ln["ops"]) and (ln["setting"][0] > 0 or ln["setting"][1] > 0)
+        nt = len(ln["ops"]) >= 2 and any(r["svc"] in ("write", "writef") or r["idx"] + r["n"] > 3 for r in ln["ops"]) and (ln["setting"][0] > 0 or ln["setting"][1] > 0)
         ev.case(key=(json.dumps(ln["ops"]), tuple(ln["setting"]), tuple(ln["pattern"])), nontrivial=nt)
     mid = lines[-3]
     ev.sample({"operations": [OPT for OPT in [json.dumps(r)[:80] for r in mid["ops"]]], "setting_depth_multiple_fragment": mid["setting"],
